@@ -327,6 +327,100 @@ func main() {
 	tb.WriteString("].\n")
 
 
+	// extFuncTypes (x/exp/schema/validate/ext_funcs.go): the typechecker's signature of every extension function
+	tf := parse("x/exp/schema/validate/ext_funcs.go")
+	type tsig struct {
+		name, ctor, ret string
+		args            []string
+	}
+	tyName := func(e ast.Expr) string {
+		cl, ok := e.(*ast.CompositeLit)
+		if !ok {
+			fail("extFuncTypes: type expression is not a composite literal")
+		}
+		id, ok := cl.Type.(*ast.Ident)
+		if !ok {
+			fail("extFuncTypes: unexpected type expression")
+		}
+		switch id.Name {
+		case "typeString", "typeBool", "typeLong":
+			if len(cl.Elts) != 0 {
+				fail("extFuncTypes: %s with fields", id.Name)
+			}
+			return strings.TrimPrefix(id.Name, "type")
+		case "typeExtension":
+			if len(cl.Elts) != 1 {
+				fail("extFuncTypes: typeExtension needs one field")
+			}
+			el := cl.Elts[0]
+			if kv, ok := el.(*ast.KeyValueExpr); ok {
+				el = kv.Value
+			}
+			bl, ok := el.(*ast.BasicLit)
+			if !ok {
+				fail("extFuncTypes: typeExtension name is not a literal")
+			}
+			n, _ := strconv.Unquote(bl.Value)
+			return "ext:" + n
+		}
+		fail("extFuncTypes: type %s is outside the translated fragment", id.Name)
+		return ""
+	}
+	var tsigs []tsig
+	ast.Inspect(tf, func(n ast.Node) bool {
+		vs, ok := n.(*ast.ValueSpec)
+		if !ok || len(vs.Names) != 1 || vs.Names[0].Name != "extFuncTypes" {
+			return true
+		}
+		cl := vs.Values[0].(*ast.CompositeLit)
+		for _, el := range cl.Elts {
+			kv := el.(*ast.KeyValueExpr)
+			kl, ok := kv.Key.(*ast.BasicLit)
+			if !ok {
+				fail("extFuncTypes: key is not a literal")
+			}
+			name, _ := strconv.Unquote(kl.Value)
+			e := tsig{name: name, ctor: "false"}
+			for _, f := range kv.Value.(*ast.CompositeLit).Elts {
+				fkv, ok := f.(*ast.KeyValueExpr)
+				if !ok {
+					fail("extFuncTypes: positional fields are outside the translated fragment")
+				}
+				switch fkv.Key.(*ast.Ident).Name {
+				case "isConstructor":
+					e.ctor = fkv.Value.(*ast.Ident).Name
+				case "argTypes":
+					for _, a := range fkv.Value.(*ast.CompositeLit).Elts {
+						e.args = append(e.args, tyName(a))
+					}
+				case "returnType":
+					e.ret = tyName(fkv.Value)
+				default:
+					fail("extFuncTypes: unknown field %s", fkv.Key.(*ast.Ident).Name)
+				}
+			}
+			if e.ret == "" {
+				fail("extFuncTypes: %s has no return type", name)
+			}
+			tsigs = append(tsigs, e)
+		}
+		return false
+	})
+	if len(tsigs) == 0 {
+		fail("extFuncTypes not found")
+	}
+	sort.Slice(tsigs, func(i, j int) bool { return tsigs[i].name < tsigs[j].name })
+	tb.WriteString("\n(* x/exp/schema/validate/ext_funcs.go: extFuncTypes (name, (is a constructor, argument types, return type)) *)\nDefinition tc_ext_table : list (string * (bool * list string * string)) := [\n")
+	for i, e := range tsigs {
+		sep := ";"
+		if i == len(tsigs)-1 {
+			sep = ""
+		}
+		fmt.Fprintf(&tb, "  (%q%%string, (%s, %s, %q%%string))%s\n", e.name, e.ctor, coqStrList(e.args), e.ret, sep)
+	}
+	tb.WriteString("].\n")
+
+
 	// ---- ToEval (convert.go) and fold (fold.go): node type -> evaluator constructor
 	toeval := switchTable(parse("internal/eval/convert.go"), "ToEval")
 	foldt := switchTable(parse("internal/eval/fold.go"), "fold")
